@@ -21,21 +21,18 @@ Signature field 'check':
 import collections
 import contextlib
 import copy
-import itertools
 import json
 import os
 import shutil
 import signal
 import sys
 import tempfile
-import traceback
 import warnings
 
 import pywbem
 import pywbem_mock
 from pywbem import _mof_compiler as MOFC
-from pywbem import (CIMError, CIMClass, CIMInstance, CIMInstanceName, CIMQualifierDeclaration,
-                    MOFCompileError, MOFCompiler, MOFWBEMConnection)
+from pywbem import CIMError, CIMInstanceName, MOFCompileError, MOFCompiler, MOFWBEMConnection
 from pywbem._nocasedict import NocaseDict
 
 import mc
@@ -866,7 +863,7 @@ def classify(exc, case, stub, embedded):
     chk = None
     if what is not None:
         # a wrong position / rendering is a property of the error object, whatever provoked it
-        chk = 'deviation' if what.startswith(('position:', 'render-raised', 'not-a-pywbem')) \
+        chk = 'deviation' if what.startswith(('position:', 'render-raised', 'not-a-pywbem', 'timeout')) \
             else check_of(exc, stub)
     return out, what, where, exp, obs, chk
 
@@ -877,7 +874,8 @@ def _classify(exc, case, stub, embedded):
         return 'ok', None, None, None, None
     expected = 'success, MOFCompileError with a position inside the input, or OSError for a missing file'
     if isinstance(exc, _Timeout):
-        return 'violation', 'timeout', 'watchdog', 'terminates within %gs' % WATCHDOG_S, 'still running'
+        return ('violation', 'timeout', 'watchdog', 'terminates within %gs' % WATCHDOG_S,
+                'still running, interrupted in %s' % (pywbem_frames(exc.__traceback__)[-1:] or ['?'])[0])
     if isinstance(exc, MOFCompileError):
         name = type(exc).__name__ if type(exc) in (pywbem.MOFParseError, pywbem.MOFDependencyError,
                                                     pywbem.MOFRepositoryError) else 'MOFCompileError-other'
@@ -938,12 +936,11 @@ def execute(case):
         main = os.path.join(w.root, 'main.mof')
         with open(main, 'w', encoding='utf-8', newline='') as f:
             f.write(text)
-    embedded = None
     del _EMBEDDED[:]
     cwd = os.getcwd()
     os.chdir(w.root)     # a MOF string has no file: its includes are relative to the cwd
     try:
-        return _execute(w, case, seam, text, ns, embedded)
+        return _execute(w, case, seam, text, ns)
     finally:
         os.chdir(cwd)
         if case['entry'] == 'file':
@@ -965,7 +962,7 @@ def _guarded(fn):
     return None
 
 
-def _execute(w, case, seam, text, ns, embedded):
+def _execute(w, case, seam, text, ns):
     stub = handle = comp = None
     if seam == 'mock':
         ext = bool(case.get('ext'))
@@ -1019,7 +1016,7 @@ def _execute(w, case, seam, text, ns, embedded):
     return results, ncalls
 
 
-def check_case(case, acc, base_text=None, minimize_seen=None):
+def check_case(case, acc, base_text=None):
     if case['seam'] == 'mock' and case['entry'] != 'string':
         case = dict(case, entry='string')     # compile_mof_string has no file entry
     results, ncalls = execute(case)
@@ -1176,8 +1173,7 @@ def apply_token_ops(text, spans, edits):
     """edits: [(token index, op, tok)] with increasing, non-overlapping indices"""
     out = []
     pos = 0
-    i = 0
-    edits = sorted(edits)
+    edits = sorted(edits, key=lambda e: e[0])
     for ti, op, tok in edits:
         s, e = spans[ti]
         if s < pos:
@@ -1301,8 +1297,6 @@ def gen_initializers():
 
 
 def gen_pragmas():
-    def esc(s):
-        return s
     for pname in PRAGMA_NAMES:
         for par in PRAGMA_PARAMS:
             for entry in ('string', 'file'):
@@ -1423,7 +1417,6 @@ def run_shard(shard, tier):
 
 def _run_shard(shard, tier, acc):
     part, of, sub = shard['part'], shard['of'], shard['sub']
-    seen = set()
 
     def mine(i):
         return i % of == part
@@ -1433,19 +1426,19 @@ def _run_shard(shard, tier, acc):
             if mine(i):
                 c = build_token_case(name, edits, seam)
                 if c is not None:
-                    check_case(c, acc, TEMPLATES[name]['text'], seen)
+                    check_case(c, acc, TEMPLATES[name]['text'])
     elif sub == 'char':
         for i, (name, edit) in enumerate(gen_chars()):
             if mine(i):
-                check_case(build_char_case(name, edit), acc, TEMPLATES[name]['text'], seen)
+                check_case(build_char_case(name, edit), acc, TEMPLATES[name]['text'])
     elif sub == 'init':
         for i, c in enumerate(gen_initializers()):
             if mine(i):
-                check_case(c, acc, None, seen)
+                check_case(c, acc, None)
     elif sub == 'pragma':
         for i, c in enumerate(gen_pragmas()):
             if mine(i):
-                check_case(c, acc, None, seen)
+                check_case(c, acc, None)
     elif sub == 'fault':
         if part == 0:
             for name in TEMPLATES:      # the unchanged templates themselves, in every seam
@@ -1453,17 +1446,17 @@ def _run_shard(shard, tier, acc):
                     check_case(tpl_case(name, seam=seam), acc, TEMPLATES[name]['text'])
         for i, c in enumerate(gen_faults(tier)):
             if mine(i):
-                check_case(c, acc, None, seen)
+                check_case(c, acc, None)
     elif sub == 'mock':
         for i, c in enumerate(gen_mock()):
             if mine(i):
-                check_case(c, acc, None, seen)
+                check_case(c, acc, None)
     elif sub == 'pairs':
         for i, (name, edits, seam) in enumerate(gen_token_pairs(BOUNDS[tier]['pair_distance'])):
             if mine(i):
                 c = build_token_case(name, edits, seam)
                 if c is not None:
-                    check_case(c, acc, TEMPLATES[name]['text'], seen)
+                    check_case(c, acc, TEMPLATES[name]['text'])
     elif sub == 'devfault':
         for i, (name, edits) in enumerate(gen_dev_x_fault()):
             if not mine(i):
@@ -1474,7 +1467,7 @@ def _run_shard(shard, tier, acc):
             _, n = execute(c)
             for k in range(n):
                 for code in DISTINGUISHED_CODES:
-                    check_case(dict(c, fault=[k, 'CIMError', code]), acc, None, seen)
+                    check_case(dict(c, fault=[k, 'CIMError', code]), acc, None)
     elif sub == 'fault2':
         i = 0
         for name in TEMPLATES:
@@ -1488,7 +1481,7 @@ def _run_shard(shard, tier, acc):
                     _, n2 = execute(first)
                     for k2 in range(k1 + 1, n2 + 1):
                         for c2 in DISTINGUISHED_CODES:
-                            check_case(dict(first, fault2=[k2, 'CIMError', c2]), acc, None, seen)
+                            check_case(dict(first, fault2=[k2, 'CIMError', c2]), acc, None)
     else:   # pragma: no cover
         raise HarnessError('unknown shard %r' % (shard,))
     return acc
@@ -1499,7 +1492,7 @@ def replay(case, tier):
     acc = Acc()
     case = dict(case)
     idx = case.pop('sigidx', None)
-    check_case(case, acc, None, None)
+    check_case(case, acc, None)
     if idx is not None:
         acc.violations = {k: v for k, v in acc.violations.items()
                           if v['case'].get('sigidx') == idx} or acc.violations
